@@ -1,6 +1,6 @@
 use crate::{
     emulator::Emulator,
-    error::IoError,
+    error::{IoError, SnapshotLoadError},
     host::{DataRecorder, Host, LoadableAsset, SeekFrom, SeekableAsset},
     zx::{machine::ZXMachine, video::colors::ZXColor},
     Result,
@@ -34,6 +34,15 @@ where
 
     if !is_128k && size < SNA_48K_SIZE {
         return Err(IoError::UnexpectedEof.into());
+    }
+
+    // Size of the file is the only way to find out the machine it was made for
+    let machine_matches = match emulator.settings.machine {
+        ZXMachine::Sinclair48K => !is_128k,
+        ZXMachine::Sinclair128K => is_128k,
+    };
+    if !machine_matches {
+        return Err(SnapshotLoadError::MachineNotSupported.into());
     }
 
     let mut header = [0u8; SNA_HEADER_SIZE];
